@@ -56,11 +56,81 @@ def static_counts(tree):
 LATE = "late-mutation-of-call-argument"
 
 
-def c03_events(term, out):
+REBOUND = "same-named-globals-rebound"
+
+
+def _dealias(data):
+    """If GLOBAL / INST opcodes of the program resolve the same attribute name from different modules, return the program
+    with those names made unique (X -> X__from_1, ...); else None."""
+    import pickletools
+
+    try:
+        ops = list(pickletools.genops(data))
+    except Exception:  # noqa: BLE001
+        return None
+    mods = {}
+    for info, arg, _pos in ops:
+        if info.name in ("GLOBAL", "INST") and isinstance(arg, str) and " " in arg:
+            m, n = arg.split(" ", 1)
+            if m in BUILTIN_FAMILY:
+                m = "builtins"
+            mods.setdefault(n, [])
+            if m not in mods[n]:
+                mods[n].append(m)
+    clash = {n: ms for n, ms in mods.items() if len(ms) > 1}
+    if not clash:
+        return None
+    out = bytearray()
+    for i, (info, arg, pos) in enumerate(ops):
+        end = ops[i + 1][2] if i + 1 < len(ops) else len(data)
+        if info.name in ("GLOBAL", "INST") and isinstance(arg, str) and " " in arg:
+            m, n = arg.split(" ", 1)
+            mk = "builtins" if m in BUILTIN_FAMILY else m
+            if n in clash and mk != "builtins":
+                n2 = f"{n}__from_{clash[n].index(mk)}"
+                out += data[pos:pos + 1] + m.encode() + b"\n" + n2.encode() + b"\n"
+                continue
+        out += data[pos:end]
+    return bytes(out)
+
+
+def _rebound_only(term, oracle):
+    """True iff the program resolves same-named globals of different modules and the oracle is satisfied once those names
+    are made unique: the mismatch is then the known conflation of bare names in the decompiled program, nothing else."""
+    data2 = _dealias(term.data)
+    if data2 is None:
+        return False
+    from . import e1
+
+    t2 = e1.Term(term.cfg, term.seq, data2)
+    o2 = e1.Out()
+    try:
+        oracle(t2, o2, _nested=True)
+    except Exception:  # noqa: BLE001
+        return False
+    compared = o2.stats.get("event_comparisons", 0) + o2.stats.get("value_comparisons", 0)
+    if not (compared > 0 and not o2.viol):
+        return False
+    # the known class is "one import statement per resolution, in order, and the bare names clash"; a program whose
+    # decompilation lacks or reorders one of those imports is something else and is reported under its own signature
+    okv, vm = term.vm
+    okt, tree = term.tree
+    if not (okv and okt):
+        return False
+    v_seq = [(ev[1], ev[2]) for ev in vm.world.log if ev[0] == "import"]
+    names = {n for _m, n in v_seq}
+    clash = {n for n in names if len({m for m, nn in v_seq if nn == n and m not in BUILTIN_FAMILY} |
+                                     ({"builtins"} if any(nn == n and m in BUILTIN_FAMILY for m, nn in v_seq) else set())) > 1}
+    d_seq = [(node.module, a.name) for node in ast.walk(tree) if isinstance(node, ast.ImportFrom) for a in node.names]
+    norm = lambda seq: [("builtins" if m in BUILTIN_FAMILY else m, n) for m, n in seq if n in clash]  # noqa: E731
+    return norm(v_seq) == norm(d_seq)
+
+
+def c03_events(term, out, _nested=False):
     """Every import and call of the VM is performed (at least as often) by the decompiled program."""
     PROP = "C03"
     real_out = out
-    out = _SigRewriter(real_out, term)
+    out = out if _nested else _SigRewriter(real_out, term, c03_events)
     okv, vm = term.vm
     if not okv:
         out.stats.inc("vm_rejected_at_stop")
@@ -133,9 +203,11 @@ class _SigRewriter:
     """Programs in which a mutable value is changed after it was passed to a call / applied as state form one known class
     (fickling mutates list/dict/set literals in place, so the call's arguments are rewritten retroactively)."""
 
-    def __init__(self, out, term):
+    def __init__(self, out, term, oracle=None):
         self._out = out
         self._term = term
+        self._oracle = oracle
+        self._rebound = None
         self.stats = out.stats
         self.outcomes = out.outcomes
 
@@ -143,6 +215,13 @@ class _SigRewriter:
         okv, vm = self._term.vm
         if okv and (vm.late_mutation or refvm.late_mutation(vm.world)):
             sig = f"{prop}|{LATE}"
+        elif self._oracle is not None:
+            # same attribute name resolved from two modules: the decompiled program refers to both by the bare name, so the
+            # later import rebinds the earlier one (known class, confirmed per program by making the names unique)
+            if self._rebound is None:
+                self._rebound = _rebound_only(self._term, self._oracle)
+            if self._rebound:
+                sig = f"{prop}|{REBOUND}"
         self._out.violate(prop, sig, desc, replay, size)
 
 
@@ -151,10 +230,10 @@ def _short(x, n=200):
     return s if len(s) <= n else s[:n] + "..."
 
 
-def c05_value(term, out):
+def c05_value(term, out, _nested=False):
     """exec(decompiled) under stubs builds the same value as the VM under the same stubs."""
     PROP = "C05"
-    out = _SigRewriter(out, term)
+    out = out if _nested else _SigRewriter(out, term, c05_value)
     okv, vm = term.vm
     if not okv:
         out.stats.inc("vm_rejected_at_stop")
